@@ -10,7 +10,8 @@ This is an *assumption* about Osmosis / CosmWasm / ibc-go written from their doc
   dispatches the returned messages in order; any failure rolls the whole transaction back;
 * bank sends need strictly positive amounts and sufficient balance, and the sender of a
   `MsgSend` must be the contract itself;
-* the token factory mints/burns positive amounts for the denom's creator only;
+* the token factory mints/burns positive amounts for the denom's creator only; a burn needs the
+  amount both in the holder's balance and in the supply (bank `BurnCoins`);
 * `MsgTransfer` (always a sub-message with `ReplyOn::Always` here) escrows the coins, creates a
   packet with the next sequence number and calls `reply(id, ok seq)`; if it cannot be
   submitted `reply(id, err)` is called; an error from `reply` fails the transaction;
@@ -102,7 +103,7 @@ def dispatch (f : Faults) (d : Disp) (m : SubMsg) : Disp × Bool :=
     else ({ d with w := { w with supply := fun x => if x = denom then w.supply x + amount else w.supply x,
                                  bal := w.bal.add mintTo denom amount } }, true)
   | .burn sender denom amount burnFrom =>
-    if sender ≠ w.self || amount = 0 || w.bal burnFrom denom < amount then (d, false)
+    if sender ≠ w.self || amount = 0 || w.bal burnFrom denom < amount || w.supply denom < amount then (d, false)
     else ({ d with w := { w with supply := fun x => if x = denom then w.supply x - amount else w.supply x,
                                  bal := w.bal.sub burnFrom denom amount } }, true)
   | .bankSend to coins =>
